@@ -156,6 +156,7 @@ func (p *Promise) resolution() resolution {
 // fulfilled.
 func (p *Promise) Fulfill(result Ptr) {
 	defer p.mu.Unlock()
+	verifYield("ans:Fulfill:p.mu")
 	p.mu.Lock()
 	if !p.isUnresolved() {
 		panic("Promise.Fulfill called after Fulfill, Reject, or Join")
@@ -173,6 +174,7 @@ func (p *Promise) Reject(e error) {
 		panic("Promise.Reject(nil)")
 	}
 	defer p.mu.Unlock()
+	verifYield("ans:Reject:p.mu")
 	p.mu.Lock()
 	if !p.isUnresolved() {
 		panic("Promise.Reject called after Fulfill, Reject, or Join")
@@ -194,6 +196,7 @@ func (p *Promise) resolve(r Ptr, e error) {
 			p.callsStopped = make(chan struct{})
 		}
 		p.mu.Unlock()
+		verifYield("ans:resolve:unlocked")
 		res := resolution{p.method, r, e}
 		for path, row := range p.clients {
 			t := path.transform()
@@ -203,8 +206,10 @@ func (p *Promise) resolve(r Ptr, e error) {
 			}
 		}
 		if p.callsStopped != nil {
+			verifYield("ans:resolve:callsStopped")
 			<-p.callsStopped
 		}
+		verifYield("ans:resolve:relock")
 		p.mu.Lock()
 	}
 
@@ -231,6 +236,7 @@ func (p *Promise) resolve(r Ptr, e error) {
 // the underlying PipelineCaller to yield an Answer.
 func (p *Promise) Join(from *Answer) {
 	defer p.mu.Unlock()
+	verifYield("ans:Join:p.mu")
 	p.mu.Lock()
 	if !p.isUnresolved() {
 		panic("Promise.Join called after Fulfill, Reject, or Join")
@@ -238,6 +244,7 @@ func (p *Promise) Join(from *Answer) {
 	p.caller = nil
 
 	parent := from.f.promise
+	verifYield("ans:Join:parent.mu")
 	parent.mu.Lock()
 traversal:
 	for {
@@ -285,6 +292,7 @@ traversal:
 			p.joined = make(chan struct{})
 		}
 		p.mu.Unlock()
+		verifYield("ans:Join:callsStopped")
 		<-p.callsStopped
 		p.mu.Lock()
 		p.callsStopped = nil
@@ -320,7 +328,9 @@ func (p *Promise) Answer() *Answer {
 //
 // This method is typically used in a ReleaseFunc.
 func (p *Promise) ReleaseClients() {
+	verifYield("ans:ReleaseClients:resolved")
 	<-p.resolved
+	verifYield("ans:ReleaseClients:p.mu")
 	p.mu.Lock()
 	if p.releasedClients {
 		p.mu.Unlock()
@@ -341,6 +351,7 @@ func (p *Promise) ReleaseClients() {
 	clients := p.clients
 	p.clients = nil
 	p.mu.Unlock()
+	verifYield("ans:ReleaseClients:release")
 	for _, row := range clients {
 		for _, cp := range row {
 			cp.client.Release()
@@ -417,6 +428,7 @@ func (ans *Answer) Field(off uint16, def []byte) *Future {
 // PipelineSend starts a pipelined call.
 func (ans *Answer) PipelineSend(ctx context.Context, transform []PipelineOp, s Send) (*Answer, ReleaseFunc) {
 	p := ans.f.promise
+	verifYield("ans:PipelineSend:p.mu")
 	p.mu.Lock()
 traversal:
 	for {
@@ -445,6 +457,7 @@ traversal:
 		caller := p.caller
 		p.mu.Unlock()
 		ans, release := caller.PipelineSend(ctx, transform, s)
+		verifYield("ans:PipelineSend:relock")
 		p.mu.Lock()
 		p.ongoingCalls--
 		if p.ongoingCalls == 0 && p.callsStopped != nil {
@@ -455,6 +468,7 @@ traversal:
 	case p.isPendingResolution():
 		// Block new calls until resolved.
 		p.mu.Unlock()
+		verifYield("ans:PipelineSend:waitResolved")
 		select {
 		case <-p.resolved:
 		case <-ctx.Done():
@@ -474,6 +488,7 @@ traversal:
 // PipelineRecv starts a pipelined call.
 func (ans *Answer) PipelineRecv(ctx context.Context, transform []PipelineOp, r Recv) PipelineCaller {
 	p := ans.f.promise
+	verifYield("ans:PipelineRecv:p.mu")
 	p.mu.Lock()
 traversal:
 	for {
@@ -503,6 +518,7 @@ traversal:
 		caller := p.caller
 		p.mu.Unlock()
 		pcall := caller.PipelineRecv(ctx, transform, r)
+		verifYield("ans:PipelineRecv:relock")
 		p.mu.Lock()
 		p.ongoingCalls--
 		if p.ongoingCalls == 0 && p.callsStopped != nil {
@@ -513,6 +529,7 @@ traversal:
 	case p.isPendingResolution():
 		// Block new calls until resolved.
 		p.mu.Unlock()
+		verifYield("ans:PipelineRecv:waitResolved")
 		select {
 		case <-p.resolved:
 		case <-ctx.Done():
@@ -564,7 +581,9 @@ func (f *Future) Done() <-chan struct{} {
 // this future represents.
 func (f *Future) Struct() (Struct, error) {
 	p := f.promise
+	verifYield("ans:Struct:resolved")
 	<-p.resolved
+	verifYield("ans:Struct:p.mu")
 	p.mu.Lock()
 	for p.isJoined() {
 		q := p.next
@@ -583,6 +602,7 @@ func (f *Future) Struct() (Struct, error) {
 // should not call Close.
 func (f *Future) Client() *Client {
 	p := f.promise
+	verifYield("ans:Client:p.mu")
 	p.mu.Lock()
 traversal:
 	for {
@@ -620,6 +640,7 @@ traversal:
 		return c
 	case p.isPendingResolution():
 		p.mu.Unlock()
+		verifYield("ans:Client:waitResolved")
 		<-p.resolved
 		p.mu.Lock()
 		fallthrough
